@@ -20,14 +20,17 @@ def EvTracked (cx : Ctx) : Ev → Prop
   | .failure _ c => RepTracked cx c
   | .unwind _ c => RepTracked cx c
   | .raise _ c => RepTracked cx c
-  | .apply _ b e => RepTracked cx b ∧ RepTracked cx e
-  | .apply0 _ c => RepTracked cx c
+  | .apply _ _ b e => RepTracked cx b ∧ RepTracked cx e
+  | .apply0 _ _ c => RepTracked cx c
+  | .sctor _ => True
+  | .ssucc _ c _ => RepTracked cx c
+  | .sdtor _ => True
 
 /-- Where an exception was created. -/
 def Origin : Exc → List Ev → Prop
   | .parse i p, raw => Ev.raise i p ∈ raw
   | .nested _ _ inner, raw => Origin inner raw
-  | .foreign k _, raw => ∃ e ∈ raw, (∃ b c, e = Ev.apply k b c) ∨ (∃ c, e = Ev.apply0 k c)
+  | .foreign k _, raw => ∃ e ∈ raw, (∃ sd b c, e = Ev.apply k sd b c) ∨ (∃ sd c, e = Ev.apply0 k sd c)
 
 theorem Origin.mono {x : Exc} {a b : List Ev} (h : Origin x a) (hs : ∀ e, e ∈ a → e ∈ b) : Origin x b := by
   induction x with
@@ -355,6 +358,24 @@ namespace Pegtl
 
 theorem RepTracked.of {cx : Ctx} {c : Cursor} (h : Tracked cx c) : RepTracked cx (cx.rep c) := ⟨c, h, rfl⟩
 
+/-- A state scope adds events whose only position is the tracked cursor after the match. -/
+theorem TInv.scope {cx : Ctx} {st : St} {r : Ret} (h : TInv cx st r) (o : Nat) (b : Bool) :
+    TInv cx st (stateScope cx o b r) where
+  trk := h.trk
+  evs := fun ht e he => by
+    unfold stateScope at he
+    simp only [List.cons_append, List.mem_cons, List.mem_append, List.mem_singleton, List.append_assoc] at he
+    rcases he with he | he | he | he
+    · subst he; trivial
+    · exact h.evs ht e he
+    · split at he
+      · simp only [List.mem_singleton] at he; subst he
+        exact RepTracked.of (h.trk ht)
+      · simp at he
+    · simp only [List.not_mem_nil, or_false] at he
+      subst he; trivial
+  org := fun x hx => (h.org x hx).mono (fun e he => by unfold stateScope; simp [he])
+
 theorem body_t {cx : Ctx} {rec : Rec} (hrec : TRec cx rec) (k : Nat) (kind : Kind)
     (hat : ∀ a, kind = .atom a → TrackOK cx → a.byteAtom = true) (a : AMode) (m : RMode) (env : Env) (st : St) (r : Ret)
     (h : body cx rec k kind a m env st = some r) : TInv cx st r := by
@@ -567,13 +588,17 @@ theorem body_t {cx : Ctx} {rec : Rec} (hrec : TRec cx rec) (k : Nat) (kind : Kin
   | enable c => simp only [body] at h; exact hrec _ _ _ _ _ _ h
   | disable c => simp only [body] at h; exact hrec _ _ _ _ _ _ h
   | action fam c => simp only [body] at h; exact hrec _ _ _ _ _ _ h
+  | state d c =>
+    simp only [body, Option.map_eq_some_iff] at h
+    obtain ⟨r0, h0, rfl⟩ := h
+    exact (hrec _ _ _ _ _ _ h0).scope _ _
 
 end Pegtl
 
 namespace Pegtl
 
-theorem afterBody_raw_sub (cx : Ctx) (i : Nat) (a : AMode) (act : ActionSpec) (saved : Cursor) (r : Ret) :
-    ∀ e, e ∈ r.raw → e ∈ (afterBody cx i a act saved r).raw := by
+theorem afterBody_raw_sub (cx : Ctx) (i : Nat) (a : AMode) (act : ActionSpec) (sd : Nat) (saved : Cursor) (r : Ret) :
+    ∀ e, e ∈ r.raw → e ∈ (afterBody cx i a act sd saved r).raw := by
   intro e he
   unfold afterBody
   split
@@ -581,9 +606,9 @@ theorem afterBody_raw_sub (cx : Ctx) (i : Nat) (a : AMode) (act : ActionSpec) (s
   · simp [he]
   · simp only; split <;> simp [he]
 
-theorem afterBody_thr (cx : Ctx) (i : Nat) (a : AMode) (act : ActionSpec) (saved : Cursor) (r : Ret) (x : Exc)
-    (h : (afterBody cx i a act saved r).res = .thr x) :
-    r.res = .thr x ∨ (x = .foreign i act.throwStd ∧ actEvent cx i act saved r.st.cur ∈ (afterBody cx i a act saved r).raw) := by
+theorem afterBody_thr (cx : Ctx) (i : Nat) (a : AMode) (act : ActionSpec) (sd : Nat) (saved : Cursor) (r : Ret) (x : Exc)
+    (h : (afterBody cx i a act sd saved r).res = .thr x) :
+    r.res = .thr x ∨ (x = .foreign i act.throwStd ∧ actEvent cx i act sd saved r.st.cur ∈ (afterBody cx i a act sd saved r).raw) := by
   unfold afterBody at h ⊢
   split at h
   · left; exact h
@@ -600,8 +625,8 @@ theorem afterBody_thr (cx : Ctx) (i : Nat) (a : AMode) (act : ActionSpec) (saved
     · simp at h
     · simp [hok] at h
 
-theorem afterBody_t (cx : Ctx) (i : Nat) (a : AMode) (act : ActionSpec) (st : St) (r : Ret) (h : TInv cx st r) :
-    TInv cx st (afterBody cx i a act st.cur r) := by
+theorem afterBody_t (cx : Ctx) (i : Nat) (a : AMode) (act : ActionSpec) (sd : Nat) (st : St) (r : Ret) (h : TInv cx st r) :
+    TInv cx st (afterBody cx i a act sd st.cur r) := by
   refine ⟨fun ht => by simpa using h.trk ht, fun ht e he => ?_, fun x hx => ?_⟩
   · -- every event added carries the tracked start or the tracked end of the match
     have hs := RepTracked.of ht
@@ -618,7 +643,7 @@ theorem afterBody_t (cx : Ctx) (i : Nat) (a : AMode) (act : ActionSpec) (st : St
       rcases he with he | he
       · exact h.evs ht e he
       · subst he; exact he'
-    · have haev : EvTracked cx (actEvent cx i act st.cur r.st.cur) := by
+    · have haev : EvTracked cx (actEvent cx i act sd st.cur r.st.cur) := by
         unfold actEvent; split
         · exact ⟨hs, he'⟩
         · exact he'
@@ -645,12 +670,12 @@ theorem afterBody_t (cx : Ctx) (i : Nat) (a : AMode) (act : ActionSpec) (st : St
         · exact h.evs ht e he
         · subst he; exact haev
         · subst he; exact he'
-  · rcases afterBody_thr cx i a act st.cur r x hx with h1 | ⟨rfl, hmem⟩
-    · exact (h.org x h1).mono (afterBody_raw_sub cx i a act st.cur r)
+  · rcases afterBody_thr cx i a act sd st.cur r x hx with h1 | ⟨rfl, hmem⟩
+    · exact (h.org x h1).mono (afterBody_raw_sub cx i a act sd st.cur r)
     · refine ⟨_, hmem, ?_⟩
       unfold actEvent; split
-      · exact Or.inl ⟨_, _, rfl⟩
-      · exact Or.inr ⟨_, rfl⟩
+      · exact Or.inl ⟨_, _, _, rfl⟩
+      · exact Or.inr ⟨_, _, rfl⟩
 
 theorem nodeCore_t {cx : Ctx} {rec : Rec} (hrec : TRec cx rec)
     (k i : Nat) (nd : Node) (hn : cx.g[i]? = some nd) (a : AMode) (m : RMode) (env : Env) (st : St) (r : Ret)
@@ -661,11 +686,11 @@ theorem nodeCore_t {cx : Ctx} {rec : Rec} (hrec : TRec cx rec)
   · simp only [Option.map_eq_some_iff] at h
     obtain ⟨r0, h0, rfl⟩ := h
     have tb := body_t hrec k _ (fun at' hk hok => hok.2 i nd at' hn hk) _ _ _ _ _ h0
-    have ta := afterBody_t cx i a (cx.actOf env i nd) st r0 tb
-    refine TInv.restore (r := ⟨(afterBody cx i a (cx.actOf env i nd) st.cur r0).res,
-        (afterBody cx i a (cx.actOf env i nd) st.cur r0).st,
-        Ev.start i (cx.rep st.cur) :: (afterBody cx i a (cx.actOf env i nd) st.cur r0).raw,
-        (afterBody cx i a (cx.actOf env i nd) st.cur r0).surv⟩) ?_ (by simp) (by simp)
+    have ta := afterBody_t cx i a (cx.actOf env i nd) env.sd st r0 tb
+    refine TInv.restore (r := ⟨(afterBody cx i a (cx.actOf env i nd) env.sd st.cur r0).res,
+        (afterBody cx i a (cx.actOf env i nd) env.sd st.cur r0).st,
+        Ev.start i (cx.rep st.cur) :: (afterBody cx i a (cx.actOf env i nd) env.sd st.cur r0).raw,
+        (afterBody cx i a (cx.actOf env i nd) env.sd st.cur r0).surv⟩) ?_ (by simp) (by simp)
       (by simpa using guardRestore_cur_cases _ st.cur _)
     refine ⟨ta.trk, fun ht e he => ?_, fun x hx => (ta.org x hx).mono (fun e he => by simp [he])⟩
     simp only [List.mem_cons] at he
@@ -710,6 +735,12 @@ theorem nodeCall_t {cx : Ctx} {rec : Rec} (hrec : TRec cx rec)
             · subst he; exact RepTracked.of (t.trk ht)
           · simp only [Res.thr.injEq] at hx; subst hx; simp [Origin]
         · exact ⟨fun ht => by simpa using t.trk ht, fun ht => t.evs ht, t.org⟩
+      · simp only [Option.map_eq_some_iff] at h0
+        obtain ⟨r1, h1, rfl⟩ := h0
+        exact (nodeCore_t hrec k i nd hn a m _ st r1 h1).scope _ _
+      · simp only [Option.map_eq_some_iff] at h0
+        obtain ⟨r1, h1, rfl⟩ := h0
+        exact (hrec _ _ _ _ _ _ h1).scope _ _
     refine ⟨fun ht => by simpa using key.trk ht, fun ht e he => ?_, fun x hx => ?_⟩
     · simp only [bracket, dropOnFail_raw, List.mem_cons, List.mem_append, List.mem_singleton] at he
       rcases he with (he | he) | he
